@@ -396,8 +396,7 @@ class Gen:
             prefix = None
             if rng.random() < 0.6:
                 toks = []
-                for _ in range(rng.randrange(1, 4)):
-                    w = rng.choice(WORDS)
+                for w in rng.sample(WORDS, rng.randrange(1, 4)):   # variables of a prefix are distinct
                     toks.append("{%s}" % w if rng.random() < 0.4 else w)
                 prefix = ".".join(toks)
             f.scopes.append((names.fresh("type"), prefix, ops))
@@ -722,6 +721,7 @@ SEMANTIC_INVALID = [
     ("bad_arg_type", "service X { void f(1: Nope a) }\n"),
     ("bad_exception_type", "service X { void f() throws (1: Nope e) }\n"),
     ("bad_op_type", "scope Sc { op: Nope }\n"),
+    ("dup_prefix_variable", "struct E {}\nscope Sc prefix a.{x}.{x} { op: E }\n"),
     ("unterminated_struct", "struct S { 1: i32 a\n"),
     ("unterminated_service", "service X { void f()\n"),
     ("unterminated_scope", "struct E {}\nscope Sc { op: E\n"),
